@@ -88,6 +88,23 @@ def run(ctx):
                     kind = 'placeholder' if what == 'placeholder' or (what == 'mixed batch') else what
                     ctx.fail(f'format {f} ({lang}) cannot render {what}: {type(e).__name__}: {e}', desc,
                              fingerprint=['render', lang, f, kind, type(e).__name__])
+        # one parser result shown in several formats one after the other (the same objects): every
+        # format must still render, whatever was rendered before
+        for what, batch in items[-ctx.budget(30, 300):] + items[:3]:
+            work = R.clone_batch(batch)
+            order = list(fmts)
+            rng.shuffle(order)
+            for k, f in enumerate(order):
+                ctx.evaluations += 1
+                try:
+                    R.render(work, f, lang)
+                    ctx.nontrivial_add((lang, what, 'seq', f, len(ctx.nontrivial)))
+                except Exception as e:
+                    ctx.fail(f'format {f} ({lang}) cannot render {what} after {order[:k]} were rendered from the same result: '
+                             f'{type(e).__name__}: {e}', {'lang': lang, 'order': order, 'at': f, 'what': what,
+                                                         'batch': [[T.enc_tree(st.tree)[:600] for st in sent] for sent in batch]},
+                             fingerprint=['render-seq', lang, f, type(e).__name__])
+                    break
     ctx.sample({'formats_en': R.offered('en'), 'formats_ja': R.offered('ja')})
     ctx.traces = ctx.evaluations
     common.conclude(ctx)
